@@ -1,4 +1,6 @@
 pub mod c01;
 pub mod c03;
 pub mod c06;
+pub mod c07;
+pub mod c08;
 pub mod common;
